@@ -33,14 +33,16 @@ def excursion_peaks(values):
     return out
 
 
-def keep_flags(peaks, gmax, cut_off, ulps=4):
+def keep_flags(peaks, gmax, cut_off, ulps=4, slack=None):
     """'keep' / 'drop' / 'edge' per peak for the low-amplitude cut-off: a peak is dropped when its amplitude is below
     cut_off * max|values|. Amplitudes within a few ulps of (or equal to) the threshold are 'edge': the statement does not
-    say on which side equality falls and the product is inexact, so either decision is accepted."""
+    say on which side equality falls and the product is inexact, so either decision is accepted. slack (absolute)
+    replaces the few double-precision ulps when the record is held in a narrower float type."""
     if cut_off == 0:
         return ['keep'] * len(peaks)
     thr = cut_off * gmax
-    slack = ulps * math.ulp(thr)
+    if slack is None:
+        slack = ulps * math.ulp(thr)
     out = []
     for (_f, _l, m) in peaks:
         if abs(m - thr) <= slack:
